@@ -25,26 +25,30 @@ Record lstate := mkLS {
   next_tid : nat;                (* ghost: ticket handed to the next task that passes the first region *)
   donec : Z;                     (* _create_new_connection calls whose `finally: scheduled -= 1` is still to run *)
   closing : list (nat * bool);   (* _replace: connection taken out of _connections (or not: false), close() still to run *)
-  lphase : Z;                    (* shutdown(): 0 not started, 1 flag set, 2 connections closed, 3 trash closed *)
+  lphase : Z;                    (* shutdown(): 0 not started, 1 flag set, 2 looping over the connection list it read, 3 trash closed (done) *)
+  sd_todo : list nat;            (* shutdown(): what is left of the list object `for conn in self._connections` iterates *)
+  sd_hot : bool;                 (* shutdown(): inside the loop body, after conn.close() and before `self.open_count -= 1` *)
   core : Z; maxc : Z; lmaxid : Z; maxreqs : Z; minreqs : Z
 }.
 
 Definition linit (ncore : nat) (co mc mx mr mn : Z) : lstate :=
-  mkLS (repeat new_lconn ncore) (seq 0 ncore) [] (Z.of_nat ncore) 0 false [] [] [] O 0 [] 0 co mc mx mr mn.
+  mkLS (repeat new_lconn ncore) (seq 0 ncore) [] (Z.of_nat ncore) 0 false [] [] [] O 0 [] 0 [] false co mc mx mr mn.
 
-Definition lset_conns s v := mkLS v (active s) (ltrash s) (open_count s) (scheduled s) (lshut s) (lqueue s) (adding s) (appending s) (next_tid s) (donec s) (closing s) (lphase s) (core s) (maxc s) (lmaxid s) (maxreqs s) (minreqs s).
-Definition lset_active s v := mkLS (lconns s) v (ltrash s) (open_count s) (scheduled s) (lshut s) (lqueue s) (adding s) (appending s) (next_tid s) (donec s) (closing s) (lphase s) (core s) (maxc s) (lmaxid s) (maxreqs s) (minreqs s).
-Definition lset_trash s v := mkLS (lconns s) (active s) v (open_count s) (scheduled s) (lshut s) (lqueue s) (adding s) (appending s) (next_tid s) (donec s) (closing s) (lphase s) (core s) (maxc s) (lmaxid s) (maxreqs s) (minreqs s).
-Definition lset_open s v := mkLS (lconns s) (active s) (ltrash s) v (scheduled s) (lshut s) (lqueue s) (adding s) (appending s) (next_tid s) (donec s) (closing s) (lphase s) (core s) (maxc s) (lmaxid s) (maxreqs s) (minreqs s).
-Definition lset_sched s v := mkLS (lconns s) (active s) (ltrash s) (open_count s) v (lshut s) (lqueue s) (adding s) (appending s) (next_tid s) (donec s) (closing s) (lphase s) (core s) (maxc s) (lmaxid s) (maxreqs s) (minreqs s).
-Definition lset_shut s v := mkLS (lconns s) (active s) (ltrash s) (open_count s) (scheduled s) v (lqueue s) (adding s) (appending s) (next_tid s) (donec s) (closing s) (lphase s) (core s) (maxc s) (lmaxid s) (maxreqs s) (minreqs s).
-Definition lset_queue s v := mkLS (lconns s) (active s) (ltrash s) (open_count s) (scheduled s) (lshut s) v (adding s) (appending s) (next_tid s) (donec s) (closing s) (lphase s) (core s) (maxc s) (lmaxid s) (maxreqs s) (minreqs s).
-Definition lset_adding s v := mkLS (lconns s) (active s) (ltrash s) (open_count s) (scheduled s) (lshut s) (lqueue s) v (appending s) (next_tid s) (donec s) (closing s) (lphase s) (core s) (maxc s) (lmaxid s) (maxreqs s) (minreqs s).
-Definition lset_appending s v := mkLS (lconns s) (active s) (ltrash s) (open_count s) (scheduled s) (lshut s) (lqueue s) (adding s) v (next_tid s) (donec s) (closing s) (lphase s) (core s) (maxc s) (lmaxid s) (maxreqs s) (minreqs s).
-Definition lset_tid s v := mkLS (lconns s) (active s) (ltrash s) (open_count s) (scheduled s) (lshut s) (lqueue s) (adding s) (appending s) v (donec s) (closing s) (lphase s) (core s) (maxc s) (lmaxid s) (maxreqs s) (minreqs s).
-Definition lset_donec s v := mkLS (lconns s) (active s) (ltrash s) (open_count s) (scheduled s) (lshut s) (lqueue s) (adding s) (appending s) (next_tid s) v (closing s) (lphase s) (core s) (maxc s) (lmaxid s) (maxreqs s) (minreqs s).
-Definition lset_closing s v := mkLS (lconns s) (active s) (ltrash s) (open_count s) (scheduled s) (lshut s) (lqueue s) (adding s) (appending s) (next_tid s) (donec s) v (lphase s) (core s) (maxc s) (lmaxid s) (maxreqs s) (minreqs s).
-Definition lset_phase s v := mkLS (lconns s) (active s) (ltrash s) (open_count s) (scheduled s) (lshut s) (lqueue s) (adding s) (appending s) (next_tid s) (donec s) (closing s) v (core s) (maxc s) (lmaxid s) (maxreqs s) (minreqs s).
+Definition lset_conns s v := mkLS v (active s) (ltrash s) (open_count s) (scheduled s) (lshut s) (lqueue s) (adding s) (appending s) (next_tid s) (donec s) (closing s) (lphase s) (sd_todo s) (sd_hot s) (core s) (maxc s) (lmaxid s) (maxreqs s) (minreqs s).
+Definition lset_active s v := mkLS (lconns s) v (ltrash s) (open_count s) (scheduled s) (lshut s) (lqueue s) (adding s) (appending s) (next_tid s) (donec s) (closing s) (lphase s) (sd_todo s) (sd_hot s) (core s) (maxc s) (lmaxid s) (maxreqs s) (minreqs s).
+Definition lset_trash s v := mkLS (lconns s) (active s) v (open_count s) (scheduled s) (lshut s) (lqueue s) (adding s) (appending s) (next_tid s) (donec s) (closing s) (lphase s) (sd_todo s) (sd_hot s) (core s) (maxc s) (lmaxid s) (maxreqs s) (minreqs s).
+Definition lset_open s v := mkLS (lconns s) (active s) (ltrash s) v (scheduled s) (lshut s) (lqueue s) (adding s) (appending s) (next_tid s) (donec s) (closing s) (lphase s) (sd_todo s) (sd_hot s) (core s) (maxc s) (lmaxid s) (maxreqs s) (minreqs s).
+Definition lset_sched s v := mkLS (lconns s) (active s) (ltrash s) (open_count s) v (lshut s) (lqueue s) (adding s) (appending s) (next_tid s) (donec s) (closing s) (lphase s) (sd_todo s) (sd_hot s) (core s) (maxc s) (lmaxid s) (maxreqs s) (minreqs s).
+Definition lset_shut s v := mkLS (lconns s) (active s) (ltrash s) (open_count s) (scheduled s) v (lqueue s) (adding s) (appending s) (next_tid s) (donec s) (closing s) (lphase s) (sd_todo s) (sd_hot s) (core s) (maxc s) (lmaxid s) (maxreqs s) (minreqs s).
+Definition lset_queue s v := mkLS (lconns s) (active s) (ltrash s) (open_count s) (scheduled s) (lshut s) v (adding s) (appending s) (next_tid s) (donec s) (closing s) (lphase s) (sd_todo s) (sd_hot s) (core s) (maxc s) (lmaxid s) (maxreqs s) (minreqs s).
+Definition lset_adding s v := mkLS (lconns s) (active s) (ltrash s) (open_count s) (scheduled s) (lshut s) (lqueue s) v (appending s) (next_tid s) (donec s) (closing s) (lphase s) (sd_todo s) (sd_hot s) (core s) (maxc s) (lmaxid s) (maxreqs s) (minreqs s).
+Definition lset_appending s v := mkLS (lconns s) (active s) (ltrash s) (open_count s) (scheduled s) (lshut s) (lqueue s) (adding s) v (next_tid s) (donec s) (closing s) (lphase s) (sd_todo s) (sd_hot s) (core s) (maxc s) (lmaxid s) (maxreqs s) (minreqs s).
+Definition lset_tid s v := mkLS (lconns s) (active s) (ltrash s) (open_count s) (scheduled s) (lshut s) (lqueue s) (adding s) (appending s) v (donec s) (closing s) (lphase s) (sd_todo s) (sd_hot s) (core s) (maxc s) (lmaxid s) (maxreqs s) (minreqs s).
+Definition lset_donec s v := mkLS (lconns s) (active s) (ltrash s) (open_count s) (scheduled s) (lshut s) (lqueue s) (adding s) (appending s) (next_tid s) v (closing s) (lphase s) (sd_todo s) (sd_hot s) (core s) (maxc s) (lmaxid s) (maxreqs s) (minreqs s).
+Definition lset_closing s v := mkLS (lconns s) (active s) (ltrash s) (open_count s) (scheduled s) (lshut s) (lqueue s) (adding s) (appending s) (next_tid s) (donec s) v (lphase s) (sd_todo s) (sd_hot s) (core s) (maxc s) (lmaxid s) (maxreqs s) (minreqs s).
+Definition lset_phase s v := mkLS (lconns s) (active s) (ltrash s) (open_count s) (scheduled s) (lshut s) (lqueue s) (adding s) (appending s) (next_tid s) (donec s) (closing s) v (sd_todo s) (sd_hot s) (core s) (maxc s) (lmaxid s) (maxreqs s) (minreqs s).
+Definition lset_todo s v := mkLS (lconns s) (active s) (ltrash s) (open_count s) (scheduled s) (lshut s) (lqueue s) (adding s) (appending s) (next_tid s) (donec s) (closing s) (lphase s) v (sd_hot s) (core s) (maxc s) (lmaxid s) (maxreqs s) (minreqs s).
+Definition lset_hot s v := mkLS (lconns s) (active s) (ltrash s) (open_count s) (scheduled s) (lshut s) (lqueue s) (adding s) (appending s) (next_tid s) (donec s) (closing s) (lphase s) (sd_todo s) v (core s) (maxc s) (lmaxid s) (maxreqs s) (minreqs s).
 
 Definition lget (s : lstate) (c : nat) : lconn := nth c (lconns s) new_lconn.
 Definition lvalid (s : lstate) (c : nat) : bool := Nat.ltb c (length (lconns s)).
@@ -97,7 +101,11 @@ Inductive lop :=
 | LReplaceClose                  (* _replace: connection.close() (+ submit _retrying_replace) *)
 | LReturnTrash (c : nat)         (* return_connection trash branch: `with connection.lock` (+ `self._lock`) *)
 | LTrash (c : nat)               (* _maybe_trash_connection: `with self._lock` *)
-| LShutdownFlag | LShutdownConns | LShutdownTrash
+| LShutdownFlag                  (* shutdown(): `with self._lock` *)
+| LShutdownSnap                  (* shutdown(): `for conn in self._connections` reads the list object *)
+| LShutdownNext                  (* [self.open_count -= 1 of the previous iteration;] the iterator advances; conn.close() *)
+| LShutdownTrash                 (* `for conn in self._trash: conn.close()` *)
+| LWait                          (* _await_available_conn: the borrower is parked on the condition; it resumes after other steps *)
 | LOrphan (c : nat) | LLate (c : nat) | LRecycle | LDefunct (c : nat).   (* LRecycle: process_msg `with self.lock: request_ids.append` *)
 
 Definition lstep (s : lstate) (o : lop) : lstate * list lout :=
@@ -166,12 +174,19 @@ Definition lstep (s : lstate) (o : lop) : lstate * list lout :=
         if l_inflight (lget s c) =? 0 then (lupd s1 c j_close, [LClose c]) else (lset_trash s1 (ins c (ltrash s)), [LBool true])
       else (s, [])
   | LShutdownFlag => if lshut s then (s, [LBool false]) else (lset_phase (lset_shut s true) 1, [LBool true])
-  | LShutdownConns =>
-      if lphase s =? 1
-      then (lset_conns (lset_open (lset_phase s 2) (open_count s - Z.of_nat (length (active s)))) (lclose_all (active s) (lconns s)), map LClose (active s))
-      else (s, [])
+  | LShutdownSnap => if lphase s =? 1 then (lset_todo (lset_phase s 2) (active s), []) else (s, [])
+  | LShutdownNext =>
+      if lphase s =? 2 then
+        let s0 := if sd_hot s then lset_open s (open_count s - 1) else s in     (* `self.open_count -= 1` of the previous iteration *)
+        match sd_todo s with
+        | c :: r => (lupd (lset_hot (lset_todo s0 r) true) c j_close, [LBool true; LClose c])
+        | [] => (lset_hot s0 false, [LBool false])
+        end
+      else (s, [LBool false])
   | LShutdownTrash =>
-      if lphase s =? 2 then (lset_conns (lset_phase s 3) (lclose_all (ltrash s) (lconns s)), map LClose (ltrash s)) else (s, [])
+      if (lphase s =? 2) && (match sd_todo s with [] => true | _ => false end)
+      then (lset_conns (lset_phase s 3) (lclose_all (ltrash s) (lconns s)), map LClose (ltrash s)) else (s, [])
+  | LWait => (s, [])
   | LOrphan c => if lvalid s c && (0 <? l_live (lget s c)) then (lupd s c j_orphan, []) else (s, [])
   | LLate c => if lvalid s c && (0 <? l_orph (lget s c)) then (lupd s c j_late, []) else (s, [])
   | LRecycle => (s, [])
@@ -189,21 +204,28 @@ Definition lall_closed (s : lstate) : bool := forallb l_closed (lconns s).
 Inductive lprog := LRet (r : lout) | LDo (o : lop) (k : list lout -> lprog).
 Definition lfirst (r : list lout) : lout := match r with x :: _ => x | [] => LNone end.
 
-Definition lshutdown_prog : lprog :=
+Fixpoint lshutdown_loop (fuel : nat) : lprog :=
+  match fuel with
+  | O => LDo LShutdownTrash (fun _ => LRet LNone)
+  | S f => LDo LShutdownNext (fun r => match lfirst r with
+             | LBool true => lshutdown_loop f
+             | _ => LDo LShutdownTrash (fun _ => LRet LNone) end)
+  end.
+Definition lshutdown_prog (fuel : nat) : lprog :=
   LDo LShutdownFlag (fun r => match lfirst r with
-    | LBool true => LDo LShutdownConns (fun _ => LDo LShutdownTrash (fun _ => LRet LNone))
+    | LBool true => LDo LShutdownSnap (fun _ => lshutdown_loop fuel)
     | _ => LRet LNone end).
 
 (* _wait_for_conn: each iteration = (spurious) wake-up, shutdown test, pick, capacity test *)
 Fixpoint lwait_loop (fuel : nat) (k : lout -> lprog) : lprog :=
   match fuel with
   | O => k LErrNoConn
-  | S f => LDo LShutCheck (fun r => match lfirst r with
+  | S f => LDo LWait (fun _ => LDo LShutCheck (fun r => match lfirst r with
       | LBool true => k LErrShutdown
       | _ => LDo LPick (fun r2 => match lfirst r2 with
           | LConn c => LDo (LTake c) (fun r3 => match lfirst r3 with LBool true => k (LConn c) | _ => lwait_loop f k end)
           | _ => lwait_loop f k end)
-      end)
+      end))
   end.
 
 Definition lspawn_check (c : nat) : lprog :=
@@ -226,10 +248,10 @@ Definition lreplace_prog (c : nat) : lprog :=
   LDo (LReplaceRemove c) (fun _ => LDo LReplaceClose (fun _ => LRet LNone)).
 
 (* return_connection; trash_ok = the wall-clock condition time.time() >= self._next_trash_allowed_at (scripted) *)
-Definition lreturn_prog (c : nat) (orphaned down trash_ok : bool) (co mn : Z) : lprog :=
+Definition lreturn_prog (sdfuel : nat) (c : nat) (orphaned down trash_ok : bool) (co mn : Z) : lprog :=
   LDo (LReturnDec c orphaned) (fun r => match lfirst r with
     | LNum inflight => LDo (LReturnRead c) (fun r2 => match lfirst r2 with
-        | LRead true sg _ _ => if sg then LRet LNone else LDo (LSignal c) (fun _ => if down then lshutdown_prog else lreplace_prog c)
+        | LRead true sg _ _ => if sg then LRet LNone else LDo (LSignal c) (fun _ => if down then lshutdown_prog sdfuel else lreplace_prog c)
         | LRead false _ true _ => LDo (LReturnTrash c) (fun _ => LRet LNone)
         | LRead false _ false n => if (co <? n) && (inflight <=? mn) && trash_ok then LDo (LTrash c) (fun _ => LRet LNone) else LRet LNone
         | _ => LRet LNone end)
@@ -251,12 +273,12 @@ Inductive lmop :=
 Definition lprog_of (s0 : lstate) (m : lmop) : lprog :=
   match m with
   | LMBorrow f => lborrow_prog f
-  | LMReturn c d t => lreturn_prog c false d t (core s0) (minreqs s0)
-  | LMOrphan c d t => LDo (LOrphan c) (fun _ => lreturn_prog c true d t (core s0) (minreqs s0))
+  | LMReturn c d t => lreturn_prog (length (lconns s0) + 8) c false d t (core s0) (minreqs s0)
+  | LMOrphan c d t => LDo (LOrphan c) (fun _ => lreturn_prog (length (lconns s0) + 8) c true d t (core s0) (minreqs s0))
   | LMLate c => LDo (LLate c) (fun _ => LDo LRecycle (fun _ => LRet LNone))
   | LMDefunct c => LDo (LDefunct c) (fun _ => LRet LNone)
   | LMTask => ltask_prog
-  | LMShutdown => lshutdown_prog
+  | LMShutdown => lshutdown_prog (length (lconns s0) + 8)
   | LMEnsureCore => LDo LShutCheck (fun r => match lfirst r with LBool true => LRet LNone | _ => LDo LScheduleCore (fun _ => LRet LNone) end)
   end.
 
@@ -265,8 +287,22 @@ Definition lprog_of (s0 : lstate) (m : lmop) : lprog :=
 Definition lhooked (o : lop) : bool :=
   match o with
   | LTake _ | LScheduleCore | LMaybeSpawn | LTaskCheck | LTaskConnect _ | LTaskAppend _ | LTaskDone
-  | LReturnDec _ _ | LReturnRead _ | LSignal _ | LReplaceRemove _ | LReturnTrash _ | LTrash _ | LShutdownFlag | LLate _ | LRecycle => true
+  | LReturnDec _ _ | LReturnRead _ | LSignal _ | LReplaceRemove _ | LReturnTrash _ | LTrash _ | LShutdownFlag | LLate _ | LRecycle | LWait | LShutdownNext => true
   | _ => false
+  end.
+
+(* LShutdownNext is an instrumented point (the close() call) only when a connection is left to close *)
+Definition lhooked_s (s : lstate) (o : lop) : bool :=
+  match o with
+  | LShutdownNext => (lphase s =? 2) && sd_hot s     (* the instrumented point is the end of the previous conn.close() *)
+  | _ => lhooked o
+  end.
+
+(* a program run on its own, no other thread in between *)
+Fixpoint lexec (p : lprog) (s : lstate) : lstate * lout :=
+  match p with
+  | LRet r => (s, r)
+  | LDo o k => let '(s2, r) := lstep s o in lexec (k r) s2
   end.
 
 Definition lsnap_conn (k : lconn) : list Z :=
@@ -280,7 +316,7 @@ Definition lres_code (r : lout) : list Z :=
 Fixpoint lrun_prog0 (p : lprog) (s : lstate) (acc : list (list Z)) : lstate * list (list Z) :=
   match p with
   | LRet r => (s, lres_code r :: lsnap s :: acc)
-  | LDo o k => let acc1 := if lhooked o then lsnap s :: acc else acc in
+  | LDo o k => let acc1 := if lhooked_s s o then lsnap s :: acc else acc in
                let '(s2, r) := lstep s o in lrun_prog0 (k r) s2 acc1
   end.
 Fixpoint lrun_ints (l : list lmop) (s : lstate) (acc : list (list Z)) : lstate * list (list Z) :=
@@ -292,7 +328,7 @@ Fixpoint lrun_prog (p : lprog) (ints : list (list lmop)) (s : lstate) (acc : lis
   match p with
   | LRet r => (s, lres_code r :: lsnap s :: acc)
   | LDo o k =>
-      if lhooked o then
+      if lhooked_s s o then
         let '(s1, acc1) := lrun_ints (hd [] ints) s (lsnap s :: acc) in
         let '(s2, r) := lstep s1 o in lrun_prog (k r) (tl ints) s2 acc1
       else let '(s2, r) := lstep s o in lrun_prog (k r) ints s2 acc
